@@ -271,14 +271,14 @@ def C11(ctx):
 
 def C12(ctx):
     f = ctx.facts("svg")
+    d_doc = G.c12_r7(ctx, f)
     S.c12_r1(ctx, f)
-    S.c12_r2(ctx, f)
+    S.c12_r2(soft_if(ctx, d_doc, "C12.R7"), f)
     S.c12_r3(ctx, f)
     S.c12_r4(ctx, f)
     S.c12_r5(ctx, f)
-    S.c12_r6(ctx, f)
+    S.c12_r6(soft_if(ctx, d_doc, "C12.R7"), f)
     S.c12_t1(ctx, f)
-    G.c12_r7(ctx, f)
     return dict(
         level="other",
         explanation="Injection: forward taint from the image option to the returned markup must pass an attribute escaper recognised by its decision table. The whole document is partially evaluated with symbolic module values for 40 (version, margin, layer program) configurations: square viewBox/background of side size+2*margin in the background colour, one path per layer, exactly one sub-path slot per module taken iff that module is dark and anchored inside the module's cell, each layer filled (stroked) with its colour else the module colour, no other markup. rgba2hex's format templates are decoded (two zero-padded lower-hex digits, alpha iff != 255); commands/colours grow together; every part of the skeleton is emitted on every path. Free-form colour strings are outside the property.",
@@ -290,8 +290,9 @@ def C13(ctx):
     I.c13_r1(ctx, f)
     I.c13_t1(ctx, f)
     I.c13_r2(ctx, f)
+    d_doc = G.c12_r7(ctx, f)
     S.c12_r4(ctx, f)
-    S.c12_r6(ctx, f)
+    S.c12_r6(soft_if(ctx, d_doc, "C12.R7"), f)
     return dict(
         level="other",
         explanation="Pixel values come from resvg/tiny-skia, whose bodies are not local MIR: not decided. Decided: all 11 Builder "
